@@ -209,12 +209,26 @@ def check_case(cell, bundle, ctx):
                 extra["obj.equal(array)"] = _bools(o0.equal(B))
             elif be == "awkward":
                 extra["allclose"] = bool(A.allclose(B, rt, at))
+            # operands that carry a non-coordinate field with different values on the two sides: the decision is about the
+            # stored coordinates only
+            if be == "numpy":
+                Ax, Bx = build.np_array(sa, RA, extra=True), build.np_array(sb, RB, extra=True)
+                numpy.asarray(Bx).view(numpy.ndarray)["charge"] += 7
+            else:
+                Ax = build.ak_flat(sa, RA, False, None, {"charge": numpy.arange(len(RA))}) if be == "awkward" else None
+                Bx = build.ak_flat(sb, RB, False, None, {"charge": numpy.arange(len(RB)) + 7}) if be == "awkward" else None
+            r_x = evaluate(Ax, Bx, rt, at) if Ax is not None else r
         except Exception as e:  # noqa: BLE001
             fail("exception", f"comparison raised {e!r} for a={RA[idx[0]]} b={RB[idx[0]]}", "equal")
             return
         for k, vals in r.items():
             if len(vals) != len(idx):
                 fail("shape", f"{k} returned {len(vals)} values for {len(idx)} elements", k)
+                return
+        for k, vals in r_x.items():
+            if vals != r[k]:
+                fail("extra_field", f"{k} gives {vals} for operands that carry a differing non-coordinate field 'charge' but {r[k]} "
+                     f"without it (a rows={RA[:2]}... b rows={RB[:2]}...)", "isclose" if "isclose" in k else ("not_equal" if "not" in k or "!" in k else "equal"))
                 return
         for j, i in enumerate(idx):
             ctx.evaluation()
